@@ -4,7 +4,7 @@ import random
 from .. import common as C
 from .. import renderer as R
 
-PROPS = ["C19"]
+PROPS = ["C19", "C19_thms"]
 
 
 def gen(rnd, tier):
